@@ -141,7 +141,7 @@ static SuppressionList::Type typeOf(int t) {
     }
 }
 
-// errorId fileName line lineBegin lineEnd type symbolName macroName hash thisAndNextLine
+// errorId fileName line lineBegin lineEnd type symbolName macroName hash thisAndNextLine isInline
 static SuppressionList::Suppression readSuppr(const std::vector<std::string>& f, size_t& i) {
     SuppressionList::Suppression s;
     s.errorId = unhex(f.at(i++));
@@ -154,6 +154,7 @@ static SuppressionList::Suppression readSuppr(const std::vector<std::string>& f,
     s.macroName = unhex(f.at(i++));
     s.hash = std::stoull(f.at(i++));
     s.thisAndNextLine = f.at(i++) == "1";
+    s.isInline = f.at(i++) == "1";
     return s;
 }
 
@@ -515,6 +516,11 @@ static std::string step(const std::vector<std::string>& f) {
             if (err.empty()) cls = "ok";
             else if (err.find("expected 'suppress' element but got") != std::string::npos) cls = "E:expected";
             else if (starts(err, "unknown element '")) cls = "E:unknown";
+            else if (starts(err, "invalid lineNumber '")) {
+                const std::string::size_type q = err.rfind(" (");
+                cls = "E:line:" + intErrClass(" failed - " + (q == std::string::npos ? err : err.substr(q)));
+            }
+            else if (starts(err, "invalid hash '")) cls = "E:hash";
             else cls = lineErrClass(err);
         } catch (const std::runtime_error&) {
             cls = "T";
